@@ -13,6 +13,8 @@ import (
 	"syscall"
 	"time"
 
+	"go.uber.org/goleak"
+
 	"github.com/form3tech-oss/f1/v2/internal/verifhook"
 	"github.com/form3tech-oss/f1/v2/pkg/f1"
 	f1testing "github.com/form3tech-oss/f1/v2/pkg/f1/testing"
@@ -222,6 +224,13 @@ func init() {
 					case "errorf":
 						t.Errorf("scripted %s", "errorf")
 						return
+					case "timefail":
+						initGlobalMetrics()
+						t.Time("stage", func() { t.FailNow() })
+					case "timeerr":
+						initGlobalMetrics()
+						t.Time("stage", func() { t.Errorf("scripted %s", "errorf in a timed stage") })
+						return
 					default:
 						t.FailNow()
 					}
@@ -271,6 +280,7 @@ func init() {
 			sh.banner, sh.stats = "", nil
 			sh.mu.Unlock()
 		}
+		leakBase := goleak.IgnoreCurrent()
 		t0 := time.Now()
 		if v, ok := p["sigint"]; ok { // interrupt the run like Ctrl-C, <v> ms after its setup has run
 			go func() {
@@ -313,9 +323,18 @@ func init() {
 		if e == 1 && setups.Load() == 0 {
 			verdict = "reject"
 		}
-		return fmt.Sprintf("%s err=%d banner=%s stats=%d/%d/%d truth=%d/%d setups=%d started=%d maxflight=%d ret=%d envAfter=%s ticks=%d later=%d",
+		leak := 0
+		if p["leakcheck"] == "1" {
+			if err := goleak.Find(leakBase, goleak.IgnoreTopFunction("time.Sleep")); err != nil {
+				leak = 1
+				if os.Getenv("VERIF_DEBUG") != "" {
+					fmt.Fprintln(os.Stderr, err)
+				}
+			}
+		}
+		return fmt.Sprintf("%s err=%d banner=%s stats=%d/%d/%d truth=%d/%d setups=%d started=%d maxflight=%d ret=%d envAfter=%s ticks=%d later=%d leak=%d",
 			verdict, e, banner, st["successful"], st["failed"], st["dropped"], truthS.Load(), truthF.Load(), setups.Load(),
-			started.Load(), maxflight.Load(), ret.Milliseconds(), envAfter, ticks.Load(), laterRan.Load())
+			started.Load(), maxflight.Load(), ret.Milliseconds(), envAfter, ticks.Load(), laterRan.Load(), leak)
 	})
 }
 
